@@ -324,7 +324,7 @@ Proof.
   - (* PaddedBy *) crush IH.
   - (* Group *) apply group_loop_mi; exact IH.
   - (* Or *) apply choice_loop_mi; exact IH.
-  - (* Choice *) destruct gs as [|g1 [|g2 gs]]; [apply choice_loop_mi; exact IH | apply IH | apply choice_loop_mi; exact IH].
+  - (* Choice *) destruct gs as [|g1 [|g2 gs]]; [reflexivity | apply IH | apply choice_loop_mi; exact IH].
   - (* ChoiceVec *) destruct gs; [destruct (q_emptychoice_none Q); reflexivity | apply choicevec_loop_mi; exact IH].
   - (* OrNot *) crush IH.
   - (* Not *) crush IH.
